@@ -300,6 +300,51 @@ def gl5(prog):
     return out
 
 
+def gl6(prog):
+    """GL6  a per-call memo keyed by the pointer alone (cond_with_alloc's HashMap) is only valid for
+    one (variable, value): every caller other than the function itself hands it a fresh map."""
+    out = []
+    target = prog.find1(name="cond_with_alloc", self_adt="builder::bdd::robdd::RobddBuilder", unit="rsdd-lib")
+    n = 0
+    for fn in prog.lib_fns:
+        if fn is target or not any(b["term"]["k"] == "call" for b in fn.blocks):
+            continue
+        te = fn.terms
+        for cs in te.calls:
+            if cs.callee.name != "cond_with_alloc" or (cs.callee.res or cs.callee.def_) != target.npath:
+                continue
+            n += 1
+            a = cs.args[-1]
+            fresh = False
+            desc = show(a)
+            if isinstance(a, tuple) and a[0] == "mutref":
+                # value of the map local on entry to the call block
+                v = te.state_in.get(cs.bb, {}).get(a[1])
+                # walk the block's own statements: the temp may be created in the same block
+                v2 = te.state_out.get(cs.bb, {}).get(a[1])
+                cand = None
+                for st_ in fn.blocks[cs.bb]["stmts"]:
+                    pass
+                # the map is fresh iff its value at the call is exactly HashMap::new() (not loop-carried, not
+                # already passed to an earlier call)
+                for vv in (v,):
+                    if mir.is_call(vv, "new") and "HashMap" in vv[1].key():
+                        fresh = True
+                if v is None:
+                    # created in this very block: look at the state just before the call via the arg operand's def
+                    pre = te.state_out.get(cs.bb, {}).get(a[1])
+                    if isinstance(pre, tuple) and pre[0] == "mut" and mir.is_call(pre[3], "new") and "HashMap" in pre[3][1].key():
+                        fresh = True
+                desc = show(v if v is not None else v2)
+            out.append(inst("GL", "%s:GL6:memo-fresh" % fn.npath, OK if fresh else VIOLATION, fn, cs.line,
+                            "passes a fresh HashMap::new() as the per-call memo" if fresh else
+                            "the memo handed to cond_with_alloc is %s — not a fresh map: entries recorded for another "
+                            "(variable, value) are reused, although the memo key is the pointer alone" % desc[:80]))
+    if n < 1:
+        raise CheckerError("GL6: no external caller of cond_with_alloc found")
+    return out
+
+
 def run(prog):
     a, getfn = gl1(prog)
-    return a + gl2(prog, getfn) + gl3(prog) + gl4(prog) + gl5(prog)
+    return a + gl2(prog, getfn) + gl3(prog) + gl4(prog) + gl5(prog) + gl6(prog)
